@@ -10,6 +10,18 @@ COMMON_NOTE = ("Trusted base: pyvc engine (AST transform T1-T3 of the real sourc
                "lift to C), A3 (integer powers), A4 (path forking via z3), A5 (numpy shim contracts, listed per run in evidence.trusted_base). ")
 
 CLAIMED = {
+    "C53": dict(
+        category="proof",
+        text=("Boundary-case logic that makes the operator of the last segment a continuous function of the target scale on the closed patch: "
+              "(a) recipes._elements on symbolic atlases and targets (free, on the lower/upper matching scale with the lower/upper nf, on the initial scale), "
+              "every path: a segment is flagged cliff iff it is followed by a matching (one defect repaired by a fix commit -- last segments ending on a "
+              "matching scale were threshold operators); (b) parts.evolve forwards segment and flag; (c) Operator.mu2 coupling scales per scheme; "
+              "(d) quad_ker_qcd / quad_ker_qed = [K(gamma, final couplings, L) x] E with the evolution kernels replaced by opaque contracts, orders 1-4, "
+              "QED orders (1,1),(2,1),(3,2), all schemes; (e) the unity shortcut of Operator.compute is taken iff the kernel at equal scales is the identity."),
+        note=COMMON_NOTE + "Lemma: a composition of continuous functions is continuous; E == 1 at equal couplings is C10, continuity of the couplings C15/C16. The quantitative O(epsilon) constant is not claimed.",
+        technique="contract-based deductive verification: path-exhaustive symbolic execution with z3 + exact normal form, callee contracts by stubbing",
+        design_ref="DESIGN.md section 2, C53",
+    ),
     "C42": dict(
         category="proof",
         text=("flavor_reshape executed on fully symbolic operators, errors, rotations and inputs ((p,x) = (2,2), (3,1)): reshape(O,T,I) (.) (I f) = T (O (.) f) "
